@@ -3,6 +3,7 @@
    translated from /repo/billiard/pool.py on this run. *)
 From Coq Require Import ZArith List Bool.
 From BV Require Import Lib.PyVal Gen.K_laxsem Model.LaxSem Proofs.LaxSemProofs.
+From BV Require Model.Pool Proofs.PoolSup.
 Import ListNotations.
 Open Scope Z_scope.
 
@@ -53,6 +54,14 @@ Theorem C10_release_lax : forall s,
     /\ (bound s <= value s -> LaxSem.release s = s).
 Proof. exact release_lax. Qed.
 Print Assumptions C10_release_lax.
+
+(* pool level: in every reachable state of the pool model (any history of submissions,
+   results, worker deaths, recycles, time-limit kills, grow/shrink/close, failed sends) the
+   slot semaphore satisfies the invariant above *)
+Theorem C10_pool_semaphore_bounded : forall c tr,
+    0 <= Pool.c_n c -> SInv (Pool.sem (Pool.run c tr)).
+Proof. exact PoolSup.sem_reachable. Qed.
+Print Assumptions C10_pool_semaphore_bounded.
 
 Example C10_witness :
   srun (sem_init 2) [Acquire; Acquire; Acquire; Release; Release; Release; ShrinkStart; ShrinkFinish; Grow; Clear]
